@@ -134,3 +134,17 @@ Proof.
     induction Z as [| x y xs' ys' Hxy _ IH]; [reflexivity |].
     cbn [map]. f_equal; [| exact IH]. unfold aff. field_simplify_eq; [lra | exact Hvx].
 Qed.
+
+(* |r| = 1 exactly for collinear data *)
+Theorem r_one_iff_collinear xs ys : length xs = length ys -> 0 < var_x xs -> 0 < var_y xs ys ->
+  (Rabs (r_of xs ys) = 1 <-> exists al be, al <> 0 /\ ys = map (aff al be) xs).
+Proof.
+  intros Hl Hx Hy. split; [exact (r_one_collinear xs ys Hl Hx Hy) |].
+  intros (al & be & Ha & ->).
+  pose proof (correlation_collinear xs al be Hx Ha) as E1.
+  rewrite (correlation_value xs (map (aff al be) xs) Hx Hy) in E1.
+  injection E1 as ->.
+  destruct (Rdichotomy _ _ Ha) as [Hn | Hp].
+  - rewrite sgn_neg by exact Hn. rewrite Rabs_left; lra.
+  - rewrite sgn_pos by lra. rewrite Rabs_right; lra.
+Qed.
